@@ -30,6 +30,9 @@ func sweepReq(k int, v6 bool, plen int, ch Chunking) Req {
 }
 
 type sweeper struct {
+	failed   int
+	hold     bool
+	per      int
 	t        *testing.T
 	reported map[string]int
 	pending  []Req
@@ -55,7 +58,7 @@ func (s *sweeper) add(r Req) {
 		}
 	}
 	s.pending = append(s.pending, r)
-	if len(s.pending) == 27 {
+	if len(s.pending) == 27 && s.per == 0 {
 		s.flush()
 	}
 }
@@ -80,19 +83,29 @@ func (s *sweeper) flush() {
 	if g%evid.NShards != evid.ShardIdx {
 		return
 	}
+	if s.failed >= 3 {
+		evid.Label("sweep:cases-skipped-after-3-failing-cases")
+		return
+	}
 	c := Case{MTU: 1500}
-	for i := 0; i < len(reqs); i += 9 {
-		j := i + 9
+	per := 9
+	if s.per > 0 {
+		per = s.per
+	}
+	for i := 0; i < len(reqs); i += per {
+		j := i + per
 		if j > len(reqs) {
 			j = len(reqs)
 		}
 		c.Bursts = append(c.Bursts, reqs[i:j])
+		c.Hold = append(c.Hold, s.hold)
 	}
 	f := evid.Guard(func() *evid.Failure { return runCase(c) })
 	evid.Eval(1)
 	if f == nil {
 		return
 	}
+	s.failed++
 	for _, r := range reqs {
 		c1 := Case{MTU: 1500, Bursts: [][]Req{{r}}}
 		if f1 := evid.Guard(func() *evid.Failure { return runCase(c1) }); f1 != nil {
@@ -214,5 +227,46 @@ func TestSweepFragments(t *testing.T) {
 	if !t.Failed() {
 		evid.Note("fragment sweep: %d fragmented requests built", k)
 	}
-	_ = fmt.Sprint
+}
+
+// TestSweepPending: 1..9 requests to one owned address are pending together
+// (the link endpoint holds the first reply until the burst is injected), for
+// both families and both addresses, then released: all must be answered once.
+func TestSweepPending(t *testing.T) {
+	if evid.ReplayMode() {
+		t.Skip()
+	}
+	s := newSweeper(t)
+	s.hold = true
+	k := 0
+	lens := []int{0, 1, 56, 57, 1472}
+	if evid.Thorough() {
+		lens = []int{0, 1, 2, 7, 8, 56, 57, 130, 1000, 1451, 1452, 1472}
+	}
+	for _, v6 := range []bool{false, true} {
+		for dst := 0; dst <= 1; dst++ {
+			for n := 1; n <= 9; n++ {
+				for li, ln := range lens {
+					if v6 && ln > 1452 {
+						ln = 1452
+					}
+					s.per = n
+					for i := 0; i < n; i++ {
+						r := sweepReq(k, v6, ln, Chunking{Mode: []string{"single", "split", "link"}[(i+li)%3], K: 16, Cuts: []int{(ln / 2) &^ 1, ln/2 + 2}})
+						k++
+						r.Dst = dst
+						if i%4 == 3 && len(s.pending) > 0 { // the same request twice
+							p := s.pending[len(s.pending)-1]
+							r.ID, r.Seq, r.PSeed, r.PMode, r.Src = p.ID, p.Seq, p.PSeed, p.PMode, p.Src
+						}
+						s.add(r)
+					}
+					s.flush()
+				}
+			}
+		}
+	}
+	if !t.Failed() {
+		evid.Exhaustive(fmt.Sprintf("1..9 echo requests pending together at one owned address, IPv4 and IPv6, both addresses, payload lengths %v", lens))
+	}
 }
